@@ -28,6 +28,7 @@ import (
 	"math/rand"
 	"os"
 	"os/exec"
+	"runtime"
 	"strconv"
 	"sync"
 	"time"
@@ -87,7 +88,7 @@ func cases(seed int64, thorough bool, ins [][]byte, comp [][][]byte) []kase {
 	var out []kase
 	per := 4
 	if thorough {
-		per = 24
+		per = 12
 	}
 	for a := range algs {
 		for i := range ins {
@@ -101,7 +102,7 @@ func cases(seed int64, thorough bool, ins [][]byte, comp [][][]byte) []kase {
 				out = append(out, kase{Alg: a, Input: i, Kind: "bitflip", Pos: rng.Intn(n), Val: byte(1 << rng.Intn(8))})
 			}
 			// every bit of the first bytes and of the last bytes (headers, checksums, trailers)
-			edge := 10
+			edge := 6
 			if !thorough {
 				edge = 2
 			}
@@ -229,10 +230,18 @@ func worker(from int, progress string, stripe, stripes int) {
 		if os.Getenv("VERIF_CODEC_DIE_AT") == strconv.Itoa(i) {
 			os.Exit(7) // self-test of the death handling: this case "kills" its worker
 		}
+		var m0, m1 runtime.MemStats
+		runtime.ReadMemStats(&m0)
 		o, dmg := evaluate(cs[i], ins, comp)
+		runtime.ReadMemStats(&m1)
 		b, _ := json.Marshal(map[string]any{"i": i, "outcome": o, "damaged": dmg})
 		w.Write(b)
 		w.WriteByte('\n')
+		if m1.TotalAlloc-m0.TotalAlloc > 64<<20 {
+			// a forged length made the decoder allocate a huge block; re-using it for the next forged length would
+			// have to be zeroed again (seconds per GiB): end here, the parent starts a fresh child for the rest
+			break
+		}
 		if (i/stripes)%64 == 0 {
 			w.Flush()
 		}
@@ -272,6 +281,7 @@ func main() {
 	const stripes = 4
 	var mu sync.Mutex
 	deaths := 0
+	retried := 0
 	var wg sync.WaitGroup
 	for st := 0; st < stripes; st++ {
 		wg.Add(1)
@@ -348,6 +358,9 @@ func main() {
 					f.Close()
 				}
 				os.Remove(progress)
+				if done < len(cs) && begun >= 0 && begun < done && !hung {
+					continue // the child ended on its own after a completed case
+				}
 				if done < len(cs) {
 					// the worker died (or was killed) while evaluating case `done`
 					mu.Lock()
@@ -375,6 +388,42 @@ func main() {
 		}(st)
 	}
 	wg.Wait()
+	// A case on which a child made no progress for three minutes is evaluated once more on its own, in a fresh process
+	// and with nothing else running here (forged lengths make the decoders allocate gigabytes, which is slow under
+	// memory pressure but does end); only if it still does not finish within 15 minutes it stays "hung".
+	for i := range outcomes {
+		if outcomes[i] != "hung" {
+			continue
+		}
+		progress := fmt.Sprintf("%s.progress-retry", os.Args[2])
+		os.Remove(progress)
+		cmd := exec.Command(os.Args[0], "worker", strconv.Itoa(i), progress, strconv.Itoa(i), strconv.Itoa(len(cs)+1))
+		cmd.Env = os.Environ()
+		if err := cmd.Start(); err != nil {
+			panic(err)
+		}
+		waitCh := make(chan error, 1)
+		go func() { waitCh <- cmd.Wait() }()
+		select {
+		case <-waitCh:
+		case <-time.After(15 * time.Minute):
+			cmd.Process.Kill()
+			<-waitCh
+		}
+		if f, err := os.Open(progress); err == nil {
+			sc := bufio.NewScanner(f)
+			for sc.Scan() {
+				var m map[string]any
+				if json.Unmarshal(sc.Bytes(), &m) == nil && m["outcome"] != nil && int(m["i"].(float64)) == i {
+					outcomes[i] = m["outcome"].(string)
+					damagedF[i] = m["damaged"].(bool)
+					retried++
+				}
+			}
+			f.Close()
+		}
+		os.Remove(progress)
+	}
 	for i := range outcomes {
 		if outcomes[i] == "" {
 			fmt.Fprintf(os.Stderr, "case %d was never evaluated\n", i)
@@ -415,7 +464,7 @@ func main() {
 			}
 		}
 	}
-	sum, _ := json.Marshal(map[string]any{"cases": len(cs), "inputs": len(ins), "classes": len(order), "worker_deaths": deaths,
+	sum, _ := json.Marshal(map[string]any{"cases": len(cs), "inputs": len(ins), "classes": len(order), "worker_deaths": deaths, "slow_cases_retried": retried,
 		"distinct_damaged": len(nontrivial), "compress_failed": compressFailed})
 	os.WriteFile(os.Args[3], sum, 0o644)
 }
